@@ -3,7 +3,7 @@
    ingredients on arbitrary header maps / tracker states. *)
 From Coq Require Import List Bool NArith ZArith.
 From AUC Require Import Prelude.PyStr Prelude.PyDict C16.Model C16.Proofs C03.Model C03.Spec C03.Run
-  C04.Spec C04.Proofs C04.Run C04.History.
+  C04.Spec C04.Proofs C04.Run C04.History C04.Sender.
 Import ListNotations.
 
 (* "a non-volatile header value differs from the previous message of that type": for all header maps
@@ -59,12 +59,35 @@ Theorem C04_notify_exact :
 Proof. exact notify_exact. Qed.
 Print Assumptions C04_notify_exact.
 
+Theorem C04_notify_exact_prefix :
+  forall i : input, C04.Run.spec_failures_prefix i (model_run i) = [].
+Proof. exact notify_exact_prefix. Qed.
+Print Assumptions C04_notify_exact_prefix.
+
 Theorem C04_history_clauses :
   forall (ipv : pystr -> option N) (ops : list op) (t : tracker) (st : spec_state) (prev : obs) (n : N),
     C03.Inv.Inv t -> MemRel t st -> o_devs prev = devs_of t -> in_domain ops = true ->
     C04.Run.clauses_from ipv n st prev ops (run_from [] ipv t ops) = [].
 Proof. exact history_clauses. Qed.
 Print Assumptions C04_history_clauses.
+
+(* "at most one notification per processed message, for the sending device and the message's type": on every history
+   of the domain (no reading restriction), each step yields at most one notification (the observation carries an
+   option), and when there is one it names the device of the message's uuid USN - the message being a valid sighting
+   or a valid byebye of that device - and the message's own type (ST for a search response, NT for an advertisement). *)
+Theorem C04_names_sender :
+  forall (ipv : pystr -> option N) (ops : list op),
+    in_domain ops = true ->
+    Forall2 (fun o ob => match o_note ob with
+                         | Some (u, ty, _) =>
+                             ((exists ts vt, sighting o = Some (u, ts, vt)) \/ byebye_of o = Some u) /\
+                             op_type o = Some ty
+                         | None => True
+                         end) ops (run_from [] ipv tracker0 ops).
+Proof.
+  intros ipv ops Hd. exact (history_names_sender ipv ops tracker0 [] obs0 C03.Inv.Inv0 MemRel0 eq_refl Hd).
+Qed.
+Print Assumptions C04_names_sender.
 
 (* non-vacuity: a history of the domain with a "changed", an "alive", a "changed" (BOOTID differs, other spelling)
    and a byebye notification *)
